@@ -916,7 +916,18 @@ func (s *Sim) cancelCtx(cancel context.CancelFunc) {
 func (s *Sim) callBody(c *Call) {
 	var req, reply interface{} = c.req, c.reply
 	if c.NilMsg {
-		req = nil
+		// request shapes no key can be read from: untyped nil, typed nil pointer,
+		// values that are not messages at all
+		switch c.ID % 4 {
+		case 0:
+			req = nil
+		case 1:
+			req = (*Msg)(nil)
+		case 2:
+			req = "not a message"
+		case 3:
+			req = int32(7)
+		}
 	}
 	invoker := func(ctx context.Context, method string, rq, rp interface{}, cc *grpc.ClientConn, opts ...grpc.CallOption) error {
 		return s.pickAndWait(ctx, c)
